@@ -12,6 +12,14 @@ Definition gen_db___len__ (self : pydb) : nat :=
   then ((IndexGen.gen___len__ (db_index self)))
   else ((length (db_rows self))).
 
+Definition gen_db___iter__ (self : pydb) : list point :=
+  let yielded := [] in
+  let yielded := fold_left (fun yielded item =>
+    let yielded := (yielded ++ [item]) in
+  yielded)
+    (db_rows self) yielded in
+  yielded.
+
 Definition gen_db_get_measurements (self : pydb) : list str :=
   if (IndexGen.gen_valid (db_index self))
   then ((sort_dedup (IndexGen.gen_get_measurements (db_index self))))
@@ -117,4 +125,14 @@ Definition gen_meas___len__ (self : pydb) (name : str) : nat :=
   count)
     (db_rows self) count in
   count).
+
+Definition gen_meas___iter__ (self : pydb) (name : str) : list point :=
+  let yielded := [] in
+  let yielded := fold_left (fun yielded item =>
+    let _measurement := (p_meas item) in
+  let yielded := (if (pyeq _measurement name) then (let yielded := (yielded ++ [item]) in
+  yielded) else (yielded)) in
+  yielded)
+    (db_rows self) yielded in
+  yielded.
 
